@@ -107,7 +107,7 @@ def binary_runs(ctx, rng, n_trees, runs_per_tree):
                 os.remove(rep_path)
             elif t % 3 == 1 and r == 0:
                 with open(rep_path, 'w') as f:
-                    f.write('# report of an earlier, larger run\n\n### Lines\n' + ''.join('- Old%d.sol:%d\n' % (i % 9, i) for i in range(6000)))
+                    f.write('# report of an earlier, larger run\n\n### Lines\n' + ''.join('- Old%d.sol:%d\n' % (i % 9, i) for i in range(120000)))
             # the configured patterns in another order select the same set of patterns
             argv = [binary, '--path', './contracts']
             if r % 2 == 1:
